@@ -23,7 +23,7 @@ EXTENDS AudioAxis, TLC, Json
 CONSTANTS ClipFiles,   \* set of <<fr, te_p, te_q, tden, ch, N>> : files on which all clips are enumerated
           Pad,         \* clips reach up to Pad samples past the end of the file
           SpecSrcs,    \* set of <<fr, te_p, te_q, tden, ch, N, s, e>> : source arrays (e = 0: load_recording, else load_clip [s, e])
-          MaxW,        \* window 1..MaxW ticks of 1/tden s, hop 1..window
+          MaxW,        \* window 1..MaxW ticks of 1/tden s, hop 1..2*window (derived-twice cases: 1..window)
           ResSrcs,     \* as SpecSrcs
           Targets,     \* target samplerates
           MaxNum,      \* resample cases with more than MaxNum output samples are skipped
@@ -77,8 +77,8 @@ Init == /\ pc = "start"
            \/ \E f \in ClipFiles : \E e \in 0..MaxTick(f) : \E s \in 0..e : c = Mk("clip", f, s, e, "clip", 0, 0, 0)
            \/ \E f \in ClipFiles : \E e \in 0..MaxTick(f) : \E s \in 0..e : \E h \in Hists :
                  (s + 3 * e) % HistStride = 0 /\ c = WithHist(Mk("clip", f, s, e, "clip", 0, 0, 0), h)
-           \/ \E f \in SpecSrcs : \E w \in 1..MaxW : \E h \in 1..w :
-                 \E p \in {0} \cup (IF f \in PreSpecSrcs THEN Pres ELSE {}) :
+           \/ \E f \in SpecSrcs : \E w \in 1..MaxW : \E h \in 1..(2 * w) :
+                 \E p \in {0} \cup (IF f \in PreSpecSrcs /\ h <= w THEN Pres ELSE {}) :
                     LET k == Mk("spec", f, f[7], f[8], SrcKind(f), w, h, 0)
                     IN  PreNum(k, p) <= MaxNum /\ c = WithPre(k, p)
            \/ \E f \in ResSrcs : \E tg \in Targets : \E p \in {0} \cup Pres :
@@ -206,11 +206,13 @@ Q_ClipFiles == {<<8, 1, 1, 32, 1, 5>>, <<16, 1, 2, 32, 2, 3>>, <<8, 2, 1, 64, 3,
 \* <<fr, te_p, te_q, tden, ch, N, s, e>>
 Q_SpecSrcs == {<<8, 1, 1, 32, 1, 12, 0, 0>>, <<8, 1, 1, 32, 2, 16, 10, 50>>, <<8, 2, 1, 64, 1, 12, 0, 0>>, <<8, 1, 1, 32, 1, 2, 0, 0>>,
                <<10, 1, 1, 40, 1, 12, 4, 44>>, <<22050, 1, 1, 88200, 1, 12, 0, 0>>}
-Q_ResSrcs  == {<<8, 1, 1, 32, 1, 12, 0, 0>>, <<8, 1, 1, 32, 2, 16, 10, 50>>, <<8, 2, 1, 64, 1, 7, 0, 0>>, <<10, 1, 1, 40, 1, 9, 0, 0>>,
+\* 93 Hz: the smallest integer rate r for which 1/(1.0/r) < r in doubles (so int(1/step) = r - 1); 100 frames
+\* resampled to 186 / 279 Hz are 200 / 300 samples
+Q_ResSrcs  == {<<93, 1, 1, 372, 1, 100, 0, 0>>, <<8, 1, 1, 32, 1, 12, 0, 0>>, <<8, 1, 1, 32, 2, 16, 10, 50>>, <<8, 2, 1, 64, 1, 7, 0, 0>>, <<10, 1, 1, 40, 1, 9, 0, 0>>,
                <<44100, 1, 1, 176400, 1, 12, 0, 0>>}
 Q_Pres        == {3, 12, 22050}
 Q_PreSpecSrcs == {<<8, 1, 1, 32, 2, 16, 10, 50>>, <<22050, 1, 1, 88200, 1, 12, 0, 0>>}
-Q_Targets  == {1, 2, 3, 4, 5, 6, 7, 8, 9, 10, 12, 16, 20, 22050, 44100, 48000}
+Q_Targets  == {1, 2, 3, 4, 5, 6, 7, 8, 9, 10, 12, 16, 20, 186, 279, 22050, 44100, 48000}
 
 \* thorough tier
 T_ClipFiles == {<<8, 1, 1, 32, 1, 16>>, <<8, 1, 1, 32, 2, 7>>, <<8, 1, 1, 32, 3, 1>>, <<16, 1, 2, 32, 2, 9>>, <<4, 2, 1, 32, 1, 6>>,
@@ -220,12 +222,12 @@ T_ClipFiles == {<<8, 1, 1, 32, 1, 16>>, <<8, 1, 1, 32, 2, 7>>, <<8, 1, 1, 32, 3,
 T_SpecSrcs == {<<8, 1, 1, 32, 1, 20, 0, 0>>, <<8, 1, 1, 32, 2, 24, 10, 70>>, <<8, 2, 1, 64, 1, 16, 0, 0>>, <<16, 1, 2, 32, 1, 12, 5, 41>>,
                <<8, 1, 1, 32, 1, 2, 0, 0>>, <<8, 1, 1, 32, 1, 5, 0, 0>>, <<10, 1, 1, 40, 1, 16, 4, 60>>, <<22050, 1, 1, 88200, 1, 20, 0, 0>>,
                <<44100, 1, 1, 176400, 2, 16, 6, 62>>, <<8, 10, 1, 320, 1, 14, 0, 0>>}
-T_ResSrcs  == {<<8, 1, 1, 32, 1, 12, 0, 0>>, <<8, 1, 1, 32, 2, 16, 10, 50>>, <<8, 2, 1, 64, 1, 7, 0, 0>>, <<16, 1, 2, 32, 1, 11, 0, 0>>,
+T_ResSrcs  == {<<93, 1, 1, 372, 1, 100, 0, 0>>, <<31, 3, 1, 372, 1, 120, 8, 400>>, <<99, 1, 1, 396, 1, 100, 0, 0>>, <<8, 1, 1, 32, 1, 12, 0, 0>>, <<8, 1, 1, 32, 2, 16, 10, 50>>, <<8, 2, 1, 64, 1, 7, 0, 0>>, <<16, 1, 2, 32, 1, 11, 0, 0>>,
                <<10, 1, 1, 40, 1, 9, 0, 0>>, <<10, 1, 1, 40, 2, 12, 6, 46>>, <<44100, 1, 1, 176400, 1, 12, 0, 0>>,
                <<22050, 1, 1, 88200, 1, 30, 8, 100>>, <<8000, 1, 1, 256, 1, 130, 0, 0>>, <<8, 10, 1, 320, 1, 9, 0, 0>>}
 T_Pres        == {3, 5, 12, 16, 22050, 48000}
 T_PreSpecSrcs == {<<8, 1, 1, 32, 2, 24, 10, 70>>, <<16, 1, 2, 32, 1, 12, 5, 41>>, <<22050, 1, 1, 88200, 1, 20, 0, 0>>}
-T_Targets  == (1..24) \cup {30, 32, 40, 64, 80, 100, 4000, 8000, 11025, 16000, 22050, 32000, 44100, 48000, 96000}
+T_Targets  == (1..24) \cup {186, 198, 279, 30, 32, 40, 64, 80, 100, 4000, 8000, 11025, 16000, 22050, 32000, 44100, 48000, 96000}
 
 (* ---- Impl => Req ---- *)
 ImplClipRefinesReq == (pc = "done" /\ c.kind = "clip") => ClipReqI(c, m.len, m.t0, m.rows, m.d)
